@@ -30,7 +30,7 @@ RunOf(o) ==
    pairs |-> [x \in DOMAIN prs |-> [i |-> prs[x].i, j |-> prs[x].j, kind |-> prs[x].kind, eq |-> o.pairs[x].eq,
                                       eqr |-> o.pairs[x].eqr, heq |-> o.pairs[x].heq, same |-> o.pairs[x].same,
                                       serr |-> o.pairs[x].serr]],
-   herr |-> o.herr, hcond |-> o.hcond, ain |-> o.ain, aoff |-> o.aoff]
+   herr |-> o.herr, hcond |-> o.hcond, ain |-> o.ain, aoff |-> o.aoff, xs |-> o.xs]
 \* C05_State: the same expression built in the same registry state is the same unit and hashes equally - phase ph against
 \* every earlier phase of the same history whose table is the same (an edit was undone).  hc = class of the hash value.
 StateFails(idx, o) ==
@@ -57,7 +57,7 @@ TRule(W, k) ==
   LET ins == W.prog[k] o == Res(W, k) a == W.regs[ins.a] b == W.regs[ins.b]
       m1 == IF ins.op = "mulrule" THEN UMul(a, b, W.exact) ELSE UDiv(a, b, W.exact)
       m == IF IsUnit(m1) /\ SimplifyRaises(m1, W.ain) /\ ins.op = "mulrule" THEN UMul(b, a, W.exact) ELSE m1 IN
-  IF IsUnit(m1) /\ SimplifyRaises(m1, W.ain) THEN TRUE   \* missing symbol: raise / fallback / plain result all possible
+  IF IsUnit(m1) /\ (SimplifyRaises(m1, W.ain) \/ m1.reg # W.regs[1].reg \/ ~Homog(W)) THEN TRUE   \* missing symbol: raise / fallback / plain result all possible
   ELSE IF ~IsUnit(m) \/ SimplifyRaises(m, W.ain) THEN ~IsUnit(o)
   ELSE IF (SimplifyMayRaise(m, W.adim) \/ SimplifyMayRaiseOff(m, W.aoff)) /\ ~IsUnit(o) THEN TRUE
   \* (the rules are memoised on Unit == and hash, which do not see WHICH registry object a unit belongs to: a hit may
@@ -74,6 +74,8 @@ TStep(W, k) ==
     [] ins.op = "pow" -> Match(UPow(a, ins.e, W.exact), o, W.exact)
     [] ins.op = "simplify" ->
          IF ~IsUnit(a) THEN ~IsUnit(o)
+         \* (W.alg is the table of the first leaf's registry: a unit of another registry is simplified with another table)
+         ELSE IF a.reg # W.regs[1].reg THEN TRUE
          \* (a symbol missing from the registry raises only if its pair is reached before the others have cancelled
          \*  down to a single factor - sympy's factor order again: both outcomes are accepted)
          ELSE IF (SimplifyRaises(a, W.ain) \/ SimplifyMayRaise(a, W.adim) \/ SimplifyMayRaiseOff(a, W.aoff)) /\ ~IsUnit(o) THEN TRUE
@@ -81,6 +83,7 @@ TStep(W, k) ==
               /\ [ex |-> o.ex, clg |-> IF W.exact THEN o.clg ELSE RZero]
                    \in SimplifySet([a EXCEPT !.clg = IF W.exact THEN a.clg ELSE RZero], W.alg, W.adim)
     [] ins.op \in {"mulrule", "divrule"} -> TRule(W, k)
+    [] ins.op = "old" -> TRUE   \* (that an earlier object keeps its value is C12's statement)
     [] ins.op = "coeff" ->
          IF ~IsUnit(a) THEN ~IsUnit(o)
          ELSE LET m == AsCoeffUnit(a) IN
@@ -93,7 +96,8 @@ TPair(W, x) ==
     \* (one direction only: different expressions may collide - hash(-1) = hash(-2) makes la**2/ta and la**2/ta**2 collide)
     /\ (a.rs = b.rs /\ pr.same) => pr.heq
 \* leaves themselves are in sync with their registry (construction from a string: C02/C14 territory, so T only)
-TLeaf(W, r) == SyncOk(W, W.regs[r])
+\* (leaves given with an explicit scale are not expected to be)
+TLeaf(W, r) == (IsUnit(W.regs[r]) /\ ~W.xs[r] /\ Homog(W) /\ ~W.regs[r].alien /\ LeavesPositive(W)) => SyncEq(W, W.regs[r])
 
 TFails(W) ==
   {[what |-> "step", at |-> k] : k \in {x \in DOMAIN W.prog : ~TStep(W, x)}}
